@@ -184,6 +184,11 @@ def hostile_cases(rnd):
     cases.append(("many-params", "BEGIN:VEVENT\r\nSUMMARY" + "".join(f";X-P{i}=v" for i in range(3000)) + ":x\r\nEND:VEVENT\r\n"))
     cases.append(("many-quotes", "BEGIN:VEVENT\r\nSUMMARY;X=" + '"' * 5001 + ":x\r\nEND:VEVENT\r\n"))
     cases.append(("many-categories", "BEGIN:VEVENT\r\nCATEGORIES:" + "," * 20000 + "\r\nEND:VEVENT\r\n"))
+    # parameter lists with sequences that are escapes in RFC 6868: read, serialised and read again without any other exception
+    for pv in ('"mailto:a^n","mailto:b"', '"x^^y","z^\'w"', "a^n,b^n", '"^n"', "^^,^'", '"a","b^n c"'):
+        for pn in ("MEMBER", "DELEGATED-TO", "X-P", "CN"):
+            cases.append(("caret-list", f"BEGIN:VEVENT\r\nATTENDEE;{pn}={pv}:mailto:x@example.com\r\nEND:VEVENT\r\n"))
+            cases.append(("caret-list-strict", f"BEGIN:VTODO\r\nATTENDEE;{pn}={pv};ROLE=CHAIR:mailto:x@example.com\r\nEND:VTODO\r\n"))
     cases.append(("bom-mid", "BEGIN:VEVENT\r\n﻿SUMMARY:x\r\nEND:VEVENT\r\n"))
     cases.append(("nul", "BEGIN:VEVENT\r\nSUMMARY:a\x00b\r\nX\x00Y:1\r\nEND:VEVENT\r\n"))
     cases.append(("only-folds", "\r\n \r\n \r\n\t\r\n"))
